@@ -18,11 +18,16 @@ import z3
 
 
 def _run_z3(args):
-    smt2, timeout_ms, want_model = args
+    smt2, timeout_ms, want_model = args[:3]
+    seed = args[3] if len(args) > 3 else None
     t0 = time.time()
     try:
         s = z3.Solver()
         s.set("timeout", timeout_ms)
+        if seed is not None:
+            # the retry uses other random seeds: a query that was unlucky once is usually not unlucky twice
+            s.set("random_seed", seed)
+            s.set("seed", seed)
         s.from_string(smt2)
         r = s.check()
         model = None
@@ -234,7 +239,7 @@ def discharge(obligations, timeout_ms=10000, cross_check=False):
         # attempt with a longer budget before the second back end is consulted
         again = [(i, smt2, to) for (i, smt2, to) in retry if results[i]["verdict"] == "unknown"]
         if again:
-            outs2 = pool().map(_run_z3, [(j[1], j[2] * 3, True) for j in again], chunksize=1)
+            outs2 = pool().map(_run_z3, [(j[1], j[2] * 3, True, 17) for j in again], chunksize=1)
             for (i, smt2, to), (r, model, t, reason) in zip(again, outs2):
                 results[i]["time_s"] += t
                 if r in ("sat", "unsat"):
